@@ -52,7 +52,7 @@ HASHSEEDS = ["0", "1", "2", "12345"]
 
 
 def budget(tier):
-    return int(os.environ.get("VERIF_BUDGET", 0)) or {"quick": 64, "thorough": 2400}[tier]
+    return int(os.environ.get("VERIF_BUDGET", 0)) or {"quick": 56, "thorough": 600}[tier]
 
 
 # ---------------------------------------------------------------- generation (pure, no pharmpy import)
@@ -405,7 +405,8 @@ def corpus_cases():
         {"kind": "model", "spec": deriv_witness_spec(), "seed": 3},                    # derivatives are stringified
         {"kind": "model", "spec": {"kind": "pheno", "transforms": []}, "seed": 4},
         {"kind": "model", "spec": {"kind": "pheno", "transforms": ["foabs", "periph", "transit2", "joint"]}, "seed": 5},
-        {"kind": "model", "spec": dict(f4_witness_spec(), dv_str=True), "seed": 7},    # str keys of dependent_variables
+        {"kind": "model", "spec": dict(f4_witness_spec(), dv_str=True), "seed": 7},
+        {"kind": "model", "spec": {"kind": "pheno", "transforms": ["ie"]}, "seed": 8},  # individual estimates (int index labels)    # str keys of dependent_variables
     ]
 
 
@@ -759,11 +760,11 @@ def w_di(di):
 
 
 def w_ie(ie):
-    """The frame as the object holds it: labels as json.dumps spells dict keys, cells by exact repr (no pandas export)."""
+    """The frame as the object holds it: labels, column names and rows of cells by exact repr (no pandas export)."""
     if ie is None:
         return "none"
-    return ["ie", [_jkey(_py(k)) for k in ie.index],
-            [[str(c), [w_json(_py(ie[c].iloc[i])) for i in range(len(ie.index))]] for c in ie.columns]]
+    return ["ie", [w_json(_py(k)) for k in ie.index], [str(c) for c in ie.columns],
+            [[w_json(_py(ie.iloc[i, j])) for j in range(len(ie.columns))] for i in range(len(ie.index))]]
 
 
 def _py(x):
@@ -951,11 +952,11 @@ def derive_frame(df, op, col):
     Most are value-only changes (same columns, row count, dtypes); 'copy'/'astype-same' change nothing."""
     v = df[col].iloc[0]
     if op == "assign":
-        return df.assign(**{col: df[col] * 1000})
+        return df.assign(**{col: df[col] * 1000 + 1})
     if op == "arith":
         return df * 2
     if op == "replace":
-        return df.replace({col: {v: v + 1}})
+        return df.replace({col: {v: 1.0 if v == 0 else -v}})
     if op == "where":
         return df.where(df[col] != v, other=v + 7)
     if op == "mask-reset":
@@ -970,6 +971,11 @@ def derive_frame(df, op, col):
     if op == "copy":
         return df.copy()
     raise KeyError(op)
+
+
+def frames_identical(a, b):
+    return a.shape == b.shape and a.equals(b) and list(a.dtypes) == list(b.dtypes) and a.index.equals(b.index) \
+        and list(a.columns) == list(b.columns)
 
 
 def fresh_frame(df):
@@ -1068,7 +1074,10 @@ def child_payload(m, spec=None):
     if spec is not None and spec.get("derive") and m.dataset is not None:
         # with history: m (and so its DataFrame object) has just been hashed; derive from that object and hash again
         col = history_col(m.dataset)
-        out["hist"] = [str(ModelHash(m.replace(dataset=derive_frame(m.dataset, op, col)))) for op in spec["derive"]]
+        derived = [derive_frame(m.dataset, op, col) for op in spec["derive"]]
+        out["hist"] = [str(ModelHash(m.replace(dataset=d2))) for d2 in derived]
+        # whether the derived data really differ (v + 1 == v for a huge v, 1000 * 0 == 0, ...)
+        out["changed"] = [not frames_identical(d2, m.dataset) for d2 in derived]
         # without history: the same content constructed from scratch, never hashed before
         out["nohist"] = [str(ModelHash(m.replace(dataset=fresh_frame(derive_frame(fresh_frame(m.dataset), op, col)))))
                          for op in spec["derive"]]
@@ -1531,7 +1540,7 @@ def run_case(case, drv):
         hf = safe_hash(mf, mon, "model with a freshly built dataset")
         if hd is None or hf is None:
             continue
-        unchanged = df2.shape == df.shape and df2.equals(df) and list(df2.dtypes) == list(df.dtypes) and df2.index.equals(df.index)
+        unchanged = frames_identical(df2, df)
         if hd != hf:
             mon.append({"cls": "hash-depends-on-dataset-history",
                         "what": f"after ModelHash(m), the model whose dataset is derived from the same DataFrame by '{op}' on column {col} "
@@ -1622,7 +1631,7 @@ def run_procs_case(case):
                 worker_mon.append({"cls": "hash-depends-on-dataset-history",
                                    "what": f"fresh interpreter: hashing a model, deriving its dataset by '{op}' from the same DataFrame and "
                                            f"hashing again gives {sorted(set(hist.values()))}, the same content never hashed before gives {sorted(set(nohist.values()))}"})
-            if op not in ("copy", "astype-same") and any(hist[k] == obs[k]["hash"] for k in obs):
+            if any(obs[k]["changed"][j] and hist[k] == obs[k]["hash"] for k in obs):
                 worker_mon.append({"cls": "hash-collision-derived-dataset",
                                    "what": f"fresh interpreter: dataset derived by '{op}' (different data) has the ModelHash of the original"})
         hashes = {k: o["hash"] for k, o in obs.items()}
